@@ -6,7 +6,8 @@ RULE = ("every fixture / corpus / generated program is linted by the real Checke
         "functions / values / parameters and a global_usage ignore pattern (plus a prologue of layout-sensitive shapes: type(x == 's'), bare "
         "deprecated names, deprecated nil parameters, _G fields, nan comparisons) and once under the roblox base library (Color3.new / "
         "UDim2.new prologue); diagnostics are compared in token space (code, primary range, severity, message, secondary labels, notes modulo "
-        "whitespace); non-trivial = the pair has at least one diagnostic")
+        "whitespace); the Roblox constructor lints and manual_table_clone are also run against their Lean models on programs built around their shapes; "
+        "non-trivial = the pair has at least one diagnostic")
 
 
 def body(ctx):
@@ -18,13 +19,17 @@ def body(ctx):
     # spelling around the f32 rounding boundaries, negated / hexadecimal / parenthesised arguments, variables named `inf` / `nan`
     outdir, meta = ctx.harness("roblox", 250 if ctx.tier == "quick" else 6000)
     ctx.correspond(outdir, nontrivial_tag=lambda t: "silent" not in t)
+    # manual_table_clone against its model (Selene/Scope/ManualTableClone.lean, part of `allDiags`): programs built around the
+    # shape it looks for, with and without `table.clone` in the library
+    outdir, meta = ctx.harness("clone", 100 if ctx.tier == "quick" else 1500)
+    ctx.correspond(outdir, nontrivial_tag=lambda t: "reported" in t or "comment-before-loop" in t)
     ctx.notes.append(f"twins discarded because the rewrite changed the token sequence: {ctx.stats.get('twin_changed_the_token_sequence', 0)}; twins that did not parse: {ctx.stats.get('twin_does_not_parse', 0)}")
 
 
 def check(ctx):
     ctx.assumptions = [
         "the documented exceptions are not exercised: `comments_count` of empty_if / empty_loop keeps its default (false), programs containing filter comments are skipped, inserted comments never spell `selene:`",
-        "layout-independence of the six unmodelled lints (high_cyclomatic_complexity, manual_table_clone, the roblox lints) rests on the twin runs only; for the modelled lints the Lean theorem states it and the correspondence of C01-C06 ties the model to the code",
+        "layout-independence of the one unmodelled lint (roblox_incorrect_roact_usage) rests on the twin runs only; for the modelled lints the Lean theorem states it and the correspondence of C01-C06 ties the model to the code",
         "line-sensitive lints (multiple_statements) are covered because rewrites never join or split lines",
     ]
     return vlib.standard_check(ctx, ["Selene.Props.C13"], body,
